@@ -1078,19 +1078,57 @@ def r4(ctx, r):
              okdesc="survivors: no expiry or expiry > now")
     r.expect(drop and all(pa.entails(e, And(A("hasexp"), Not(A("live")))) for e in drop), cl, drop[0] if drop else None, "compaction drops live", "compaction drops a key that was not seen to be expired",
              okdesc="dropped: expiry <= now")
-    wkv = [e for e in cl.stmts() if e.node.get("k") == "mcall" and e.node.get("callee") == KV + "::writeKeyValue"]
+    # what the snapshot stores per key: the argument handed to writeKeyValue — in compactLocked() or in the helper the snapshot block was moved into — is a local that
+    # only ever holds toEpochMs(<the entry's ExpiryEntry::expiry>) or the no-expiry sentinel (initialiser, conditional expression, later assignments alike)
+    g, wk, site = snapshot_writer(fb, cl)
     r.instance()
-    ok = len(wkv) == 1
+    ok = wk is not None
     if ok:
-        a = strip_wrappers(wkv[0].node["args"][2])
-        init = None
-        for e in cl.stmts():
-            if e.node.get("k") == "decl":
-                for v in e.node["vars"]:
-                    if a.get("k") == "var" and v["d"] == a.get("d"):
-                        init = txt(v.get("init") or {})
-        ok = init is not None and "toEpochMs(eit->second.expiry)" in init.replace("KVStore::", "") and "NO_EXPIRY_SENTINEL" in init
-    r.expect(ok, cl, wkv[0] if wkv else None, "snapshot expiry", "the snapshot does not store toEpochMs(expiry) (or the no-expiry sentinel) per key", okdesc="snapshot: toEpochMs(expiry) | sentinel")
+        a = arg_var(wk.node["args"][2])
+        vals = []
+        if a is not None:
+            for n in g.nodes.values():
+                if n.get("k") == "decl":
+                    vals += [v["init"] for v in n["vars"] if v["d"] == a.get("d") and v.get("init") is not None]
+                elif n.get("k") in ("bin", "opcall") and n.get("op") == "=":
+                    l = arg_var(n.get("lhs") or n["args"][0])
+                    if l is not None and l.get("d") == a.get("d"):
+                        vals.append(n.get("rhs") or n["args"][1])
+
+        def kind(v):
+            v = strip_casts(strip_wrappers(v))
+            if v.get("k") == "cond":
+                ks = {kind(v["t"]), kind(v["f"])}
+                return "both" if ks == {"abs", "none"} else (ks.pop() if len(ks) == 1 else "other")
+            if v.get("k") in ("call", "mcall") and v.get("callee") == KV + "::toEpochMs" and any(x.get("k") == "member" and x.get("n") == EXP for x in walk(v)):
+                return "abs"
+            if v.get("k") in ("gvar", "gref", "member") and last(v.get("n", "")) == "NO_EXPIRY_SENTINEL":
+                return "none"
+            return "other"
+        ks = {kind(v) for v in vals}
+        ok = bool(vals) and "other" not in ks and ("both" in ks or {"abs", "none"} <= ks)
+    r.expect(ok, g if wk is not None else cl, wk, "snapshot expiry", "the snapshot does not store toEpochMs(expiry) (or the no-expiry sentinel) per key", okdesc="snapshot: toEpochMs(expiry) | sentinel")
+
+
+def snapshot_writer(fb, cl):
+    """(function, writeKeyValue call element, call element in compactLocked that leads there | None): the place where compaction writes the per-key records — in
+    compactLocked() itself or in a helper of the store it calls directly (`writeTempSnapshotLocked(survivors)`)"""
+    found = []
+    for g in kv_methods_reached(fb, cl):
+        if g.kind == "lambda":
+            continue
+        for e in g.stmts():
+            if e.node.get("k") == "mcall" and e.node.get("callee") == KV + "::writeKeyValue":
+                found.append((g, e))
+    if len(found) != 1:
+        return cl, None, None
+    g, wk = found[0]
+    if g is cl:
+        return g, wk, None
+    sites = [e for e in cl.stmts() if kv_callee(fb, e.node) is g]
+    if len(sites) != 1:
+        raise AnalysisBroken("compactLocked(): the snapshot records are written in %s, which compactLocked() does not call directly exactly once" % short(g.name))
+    return g, wk, sites[0]
 
 
 def r5(ctx, r):
@@ -1192,11 +1230,25 @@ def r5(ctx, r):
 
 def r6(ctx, r):
     cl = kvf(ctx, "compactLocked")
-    wkv = [e for e in cl.stmts() if e.node.get("k") == "mcall" and e.node.get("callee") == KV + "::writeKeyValue"]
+    fb = ctx.fb()
+    g, wk, site = snapshot_writer(fb, cl)
     r.instance()
-    # the write loop iterates `survivors`
-    ranges = [show(strip_wrappers(v["init"])) for e in cl.stmts() if e.node.get("k") == "decl" for v in e.node["vars"] if v["n"].startswith("__range") and v.get("init") is not None]
-    r.expect(wkv and "survivors" in ranges and "key" in show(wkv[0].node["args"][1]), cl, wkv[0] if wkv else None, "snapshot source", "the snapshot is not written from the survivor list", okdesc="snapshot written from `survivors`")
+    # the write loop iterates `survivors`: in compactLocked() itself, or — when the snapshot block is a helper — over the parameter that compactLocked() binds to `survivors`
+    ok = wk is not None
+    if ok:
+        rng = [arg_var(v["init"]) for e in g.stmts() if e.node.get("k") == "decl" for v in e.node["vars"] if v["n"].startswith("__range") and v.get("init") is not None]
+        if g is cl:
+            src = [x.get("n") for x in rng if x is not None]
+        else:
+            src = []
+            for x in rng:
+                for i, p_ in enumerate(g.params):
+                    if x is not None and p_.get("d") == x.get("d") and arg_var(site.node["args"][i]) is not None:
+                        src.append(arg_var(site.node["args"][i]).get("n"))
+        kv_ = arg_var(wk.node["args"][1])
+        loopvar = kv_ is not None and any(e.node.get("k") == "decl" and any(v.get("d") == kv_.get("d") and "__begin" in show(v.get("init") or {}) for v in e.node["vars"]) for e in g.stmts())
+        ok = "survivors" in src and loopvar
+    r.expect(ok, cl, wk if g is cl else site, "snapshot source", "the snapshot is not written from the survivor list", okdesc="snapshot written from `survivors`")
     ren = [e for e in cl.stmts() if e.node.get("k") == "call" and e.node.get("callee") == "std::filesystem::rename"]
     ers = common.member_calls_on(cl, KV + "::_kv", ("erase",)) + common.member_calls_on(cl, KV + "::_expiry", ("erase",))
     r.instance()
@@ -1263,6 +1315,13 @@ def r7(ctx, r):
         cp = common.cmp_parts(b.cond) if b.cond is not None else None
         if cp and cp[0] == "==" and strip_casts(cp[1]).get("n") == "op" and const_value(cp[2]) is not None:
             arms[chr(const_value(cp[2]))] = _body(ld, b.succs[0], stop_at_conds_on="op")
+        # the same dispatch spelled as `switch (op) { case 'S': … }`: one arm per case label
+        if b.term and b.term.get("k") == "SwitchStmt" and b.cond is not None and strip_casts(b.cond).get("n") == "op":
+            for si, sid in enumerate(b.succs):
+                lab = b.edge_label(si)
+                if sid is not None and isinstance(lab, tuple) and lab[0] == "case" and const_value(lab[1]) is not None:
+                    others = {x for x in b.succs if x is not None and x != sid}
+                    arms[chr(const_value(lab[1]))] = _body(ld, sid, stop_at_conds_on="op", stop_blocks=others)
     for opc, els in arms.items():
         t = " ".join(show(x.node) for x in els)
         if "memcpy(&valLen" in t or "valLen" in t:
@@ -1292,11 +1351,11 @@ def r7(ctx, r):
     r.expect(len(written) >= 4 and len(written - set(arms)) <= 1, ld, None, "journal ops", "the API journals the ops %s but load() has arms for %s" % (sorted(written), sorted(arms)), okdesc="ops journalled %s; replay arms %s + else" % (sorted(written), sorted(arms)))
 
 
-def _body(f, bid, stop_at_conds_on=None):
+def _body(f, bid, stop_at_conds_on=None, stop_blocks=()):
     out, seen, work = [], set(), [bid]
     while work:
         b = work.pop()
-        if b is None or b in seen or len(seen) > 40:
+        if b is None or b in seen or len(seen) > 40 or b in stop_blocks:
             continue
         blk = f.blocks[b]
         if stop_at_conds_on and blk.cond is not None and common.cmp_parts(blk.cond) and strip_casts(common.cmp_parts(blk.cond)[1]).get("n") == stop_at_conds_on:
